@@ -103,3 +103,44 @@ pub open spec fn entry_in_domain(e: Entry) -> bool {
     // interpretation blocks in unit u3)
     && (e.end == 0 ==> e.orig_end is None)
 }
+
+// ---- lemmas: one `next` step of the frame iterator is one step of `retrace` ----
+pub proof fn lemma_retrace_none(es: Seq<Entry>, f: AFrame)
+    requires forall|j: int| 0 <= j < es.len() ==> !applies(#[trigger] es[j], f.line),
+    ensures retrace(es, f).len() == 0,
+    decreases es.len(),
+{
+    if es.len() > 0 {
+        assert(!applies(es[0], f.line));
+        assert forall|j: int| 0 <= j < es.drop_first().len() implies !applies(#[trigger] es.drop_first()[j], f.line) by {
+            assert(es.drop_first()[j] == es[j + 1]);
+        }
+        lemma_retrace_none(es.drop_first(), f);
+    }
+}
+
+pub proof fn lemma_retrace_first(es: Seq<Entry>, f: AFrame, k: int)
+    requires
+        0 <= k < es.len(),
+        forall|j: int| 0 <= j < k ==> !applies(#[trigger] es[j], f.line),
+        applies(es[k], f.line),
+    ensures
+        retrace(es, f).len() > 0,
+        retrace(es, f)[0] == entry_out(es[k], f),
+        retrace(es, f).drop_first() == retrace(es.skip(k + 1), f),
+    decreases k,
+{
+    if k == 0 {
+        assert(es.drop_first() == es.skip(1));
+        let r = seq![entry_out(es[0], f)] + retrace(es.drop_first(), f);
+        assert(retrace(es, f) == r);
+        assert(r.drop_first() == retrace(es.drop_first(), f));
+    } else {
+        assert(!applies(es[0], f.line));
+        let t = es.drop_first();
+        assert forall|j: int| 0 <= j < k - 1 implies !applies(#[trigger] t[j], f.line) by { assert(t[j] == es[j + 1]); }
+        assert(t[k - 1] == es[k]);
+        lemma_retrace_first(t, f, k - 1);
+        assert(t.skip(k) == es.skip(k + 1));
+    }
+}
